@@ -74,6 +74,15 @@ func (e *Engine) buildUnit(name string) (res *UnitResult) {
 		}
 	}
 	if c != nil {
+		for _, gv := range c.GhostVars {
+			gv := gv
+			fc.ghostVars[gv.Name] = gv
+			vc.safeEval(name+" ghostvar "+gv.Name, func() {
+				env := fc.env(st, nil)
+				v := env.eval(gv.Init)
+				fc.ghostSet(st, "var."+gv.Name, gv.Sort, "0", v.T[0])
+			})
+		}
 		env := fc.env(st, nil)
 		env.old = nil
 		for _, g := range c.Ghosts {
@@ -142,10 +151,74 @@ func (e *Engine) buildUnit(name string) (res *UnitResult) {
 			})
 		}
 	}
+	e.assertAxioms(fc, st)
 	if vc.err != nil {
 		res.Err = vc.err
 	}
 	return
+}
+
+// assertAxioms adds the global axioms that mention an uninterpreted function
+// used by this VC.
+func (e *Engine) assertAxioms(fc *FnCtx, st *State) {
+	vc := fc.vc
+	done := map[int]bool{}
+	for changed := true; changed; {
+		changed = false
+		for i, ax := range e.spec.Axioms {
+			if done[i] {
+				continue
+			}
+			uses := false
+			for u := range vc.usedUF {
+				if containsWord(ax.Src, u) {
+					uses = true
+				}
+			}
+			if !uses {
+				continue
+			}
+			done[i] = true
+			changed = true
+			ax := ax
+			vc.safeEval(fmt.Sprintf("%s:%d axiom", ax.File, ax.Line), func() {
+				env := &Env{fc: fc, vc: vc, st: vc.old, vars: map[string]SV{}, bound: map[string]Term{}, nquant: &vc.n, noFc: true}
+				vc.assert(env.evalBool(ax.E))
+				vc.note("assumed axiom: " + ax.Src)
+			})
+		}
+	}
+}
+
+func containsWord(s, w string) bool {
+	for k := 0; ; {
+		i := indexFrom(s, w, k)
+		if i < 0 {
+			return false
+		}
+		before := i == 0 || !isIdentChar(s[i-1])
+		after := i+len(w) >= len(s) || !isIdentChar(s[i+len(w)])
+		if before && after {
+			return true
+		}
+		k = i + 1
+	}
+}
+
+func indexFrom(s, w string, k int) int {
+	if k >= len(s) {
+		return -1
+	}
+	for i := k; i+len(w) <= len(s); i++ {
+		if s[i:i+len(w)] == w {
+			return i
+		}
+	}
+	return -1
+}
+
+func isIdentChar(c byte) bool {
+	return c == '_' || c >= 'a' && c <= 'z' || c >= 'A' && c <= 'Z' || c >= '0' && c <= '9'
 }
 
 var _ = ssa.NaiveForm
